@@ -15,6 +15,12 @@ Theorem C05_time_budget : forall ones, 2 <= length ones -> sane ones ->
 Proof. exact half_sweep_time_budget. Qed.
 Print Assumptions C05_time_budget.
 
+(* the time a step spends on site j is spent with operator tensor j of the Hamiltonian given to THIS call (the correspondence
+   check compares step_ops with the tensors the real sweep hands to its kernels, also for an MPO object rebuilt in place) *)
+Theorem C05_time_spent_with_own_operator : forall j s, site_time j s <> 0%Z <-> In j (step_ops s).
+Proof. exact site_time_iff_own_operator. Qed.
+Print Assumptions C05_time_spent_with_own_operator.
+
 Theorem C05_orders_apply_same_unitaries : forall sched noise j, 1 <= j ->
   count_sym U (w1 sched noise j) = count_sym U (sample2 sched j).
 Proof. intros sched noise j Hj. rewrite (w1_U sched noise j). rewrite (order2_time sched j Hj). reflexivity. Qed.
